@@ -6,12 +6,12 @@ CONSTANTS
   Names = {"a", "b"}
   BodyPlans <- PlansFull
   DataCuts = {2, 5, 6, 9}
-  Conts = {0, 1, 2}
+  Conts = {0}
   MaxOther = 2
   MaxGoAway = 2
-  AllowUnnamed = TRUE
+  AllowUnnamed = FALSE
   AllowReqTrailers = TRUE
-  AllowClientGoAway = TRUE
+  AllowClientGoAway = FALSE
   AllowTimer = FALSE
   AllowEarlyEnd = TRUE
   MaxCall = 7
